@@ -253,6 +253,11 @@ def fact_alternatives(body, sym, facts, bb, max_alts=8):
     return _alternatives(body, sym, facts, bb, base, max_alts)
 
 
+def refine(body, sym, facts, base, max_alts=8):
+    """alternatives (see fact_alternatives) for an arbitrary list of facts, e.g. one disjunct of a merge"""
+    return _alternatives(body, sym, facts, None, list(base), max_alts)
+
+
 def _leaf_call_fact(body, sym, bb, wants):
     """the definition in block bb is a call whose result is the value: that call returned one of `wants`"""
     t = body.term(bb)
@@ -303,6 +308,12 @@ def _alternatives(body, sym, facts, bb, base, max_alts):
                 lf = _leaf_call_fact(body, sym, x, wants) if any(d[0] == "call" and d[1] == x for d in body.defs_of(e[1])) or _is_chain_leaf_call(body, x, c) else None
                 if lf is not None:
                     extra.append(lf)
+                # a bool produced by a comparison in this block: the comparison had that value
+                if wants and isinstance(wants[0], bool):
+                    for d in body.defs_of(e[1]):
+                        if d[0] == "assign" and d[1] == x and "bin" in d[3] and d[3]["bin"] in ("Lt", "Le", "Gt", "Ge", "Eq", "Ne"):
+                            ce = sym.rvalue(d[3])
+                            extra.append({"expr": ce, "val": wants[0], "text": "%s is %s" % (render(ce), wants[0]), "switch": x, "derived": True})
             key = frozenset((fx["text"]) for fx in extra)
             extras.setdefault(key, extra)
         if len(extras) * len(alts) > max_alts:
